@@ -1,6 +1,6 @@
 /-
 Lemmas/KernelLiterals.lean — the numeric literals (thresholds, tolerances, series coefficients; floats and integers above 3) and the
-comparison operators of every kernel function that is ported by hand (Model/Kernels.lean, Polyline.lean, TrimeshSum.lean), as the
+comparison operators of every kernel function that is ported by hand (Model/Kernels.lean, Polyline.lean, TrimeshSum.lean, TrimeshInside.lean, Cylinder.lean), as the
 source states them NOW (Gen/Tol.lean is regenerated from /repo on every run), pinned against the values the ports were written
 from.  The ports spell the same constants as exact rationals (`n 1 / n 1000000000000000` for 1e-15, …); a change of a threshold, of
 a tolerance or of the strictness of a comparison in the source breaks this theorem — and with it the build of every property file
@@ -36,7 +36,12 @@ theorem literals_pinned :
   ("special_cel.cel", ["10"], ["<"]),
   ("field_BH_triangularmesh.mask_inside_enclosing_box", ["1e-12"], ["<", ">", "<", ">", "<", ">"]),
   ("field_BH_triangularmesh.mask_inside_trimesh", ["12.0012345", "5.9923456", "6.9932109"], []),
+  ("field_BH_triangularmesh.lines_end_in_trimesh", ["1e-16", "1e-07", "1e-12"], [">", "<", "<", "!=", "<", "<", "<", "==", "==", "!="]),
+  ("field_BH_triangularmesh.is_facet_inwards", ["1e-05"], []),
   ("field_BH_triangularmesh.BHJM_magnet_trimesh", [], ["!=", "==", "==", "==", "!=", "==", "==", "==", "==", "=="]),
+  ("field_BH_cylinder.magnet_cylinder_axial_Bfield", [], []),
+  ("field_BH_cylinder.magnet_cylinder_diametral_Hfield", ["0.05", "8", "4", "4", "4", "4", "64", "4", "9", "25", "4", "5", "4", "8", "4", "4", "15", "64", "12", "8", "5", "12", "8", "5", "4", "4", "1e+16", "4", "4", "4"], ["<", "=="]),
+  ("field_BH_cylinder.BHJM_magnet_cylinder", ["1e-15", "1e-15"], ["<=", "<=", "==", "==", "!=", "!=", "!=", "==", "==", "==", "==", "=="]),
   ("utility.cart_to_cyl_coordinates", [], []),
   ("utility.cyl_field_to_cart", [], [])] := by
   decide
